@@ -17,12 +17,16 @@ through the real `core_ports.load` with persisted data {"enabled": true, "value"
 
 Commands: ["Tick"], ["Advance", ms], ["SetSource", p, v], ["CompleteRead", p, "val"|"skip"|"err"],
 ["CompleteWrite", p, "ok"|"exc"], ["ApiWrite", p, v], ["SetSequence", p, values, delays, repeat], ["SetAttr", p, n] (display_name := "n<n>"; runs a polling pass), ["Reset", p],
+["CancelWaitingReader", p] (cancels one reset() task that waits in p's read guard, if any),
 ["Load", p, v].
 
 Events (per port; see coq/theories/C14/Model.v):
   ["ReadRequest", src] ["ReadStart", src] ["ReadEnd", src, outcome]            src = "pass" | "load"
   ["WriteSubmit", v, t, dropped|null] ["WriteTake", v, t] ["WriteStart", v] ["WriteEnd", "ok"|"exc"] ["LoopResume"]
   ["Deliver", t, "ok"|"exc"|"qf"] ["DirectStart", v] ["DirectEnd", "ok"|"exc"] ["Snap", reading, writing, qlen]
+  ["ReadCancel", src]                                  a caller cancelled while waiting in the read guard
+  ["Told", t, "ok"|"exc"|"qf", "api"|"expr"|"seq"]     transform_and_write_value returned / raised to that submitter
+  ["ApiTold", t, bool]                                 patch_port_value answered 204/202 (true) or an error (false)
 """
 import asyncio
 import json
@@ -111,6 +115,9 @@ class Env:
                 self.next_ticket = 0
                 self.cur_ticket = None
                 self.pending_drop = None
+                self.waiting = {}        # task -> src: callers inside read_transformed_value, before the driver call
+                self.tw = {}             # task -> record of the transform_and_write_value call in progress
+                self.api_ticket = {}     # task -> ticket submitted by the API call running in that task
                 env.run.ports[port_id] = self
                 self._wrap_queue()
 
@@ -152,11 +159,22 @@ class Env:
                 return 'pass' if asyncio.current_task() in env.run.update_depth else 'load'
 
             async def read_transformed_value(self):
-                env.run.log(self.get_id(), 'ReadRequest', self._src())
-                return await super().read_transformed_value()
+                src = self._src()
+                task = asyncio.current_task()
+                env.run.log(self.get_id(), 'ReadRequest', src)
+                self.waiting[task] = src
+                try:
+                    return await super().read_transformed_value()
+                except asyncio.CancelledError:
+                    if task in self.waiting:      # cancelled while waiting in the guard
+                        env.run.log(self.get_id(), 'ReadCancel', src)
+                    raise
+                finally:
+                    self.waiting.pop(task, None)
 
             async def read_value(self):
                 src = self._src()
+                self.waiting.pop(asyncio.current_task(), None)
                 env.run.log(self.get_id(), 'ReadStart', src)
                 loop = asyncio.get_running_loop()
                 fut = loop.create_future()
@@ -218,10 +236,40 @@ class Env:
                 fut.set_result(outcome)
                 return True
 
+            async def transform_and_write_value(self, value):
+                # the level every submitter sees: patch_port_value, _eval_and_write and the sequence callback await this
+                task = asyncio.current_task()
+                rec = {'t': None}
+                self.tw[task] = rec
+                kind = 'expr' if task is self._eval_task else ('api' if task in env.run.api_tasks else 'seq')
+                outcome = None
+                try:
+                    r = await super().transform_and_write_value(value)
+                    outcome = 'ok'
+                    return r
+                except asyncio.QueueFull:
+                    outcome = 'qf'
+                    raise
+                except asyncio.CancelledError:
+                    raise
+                except Exception:
+                    outcome = 'exc'
+                    raise
+                finally:
+                    if self.tw.get(task) is rec:
+                        del self.tw[task]
+                    if outcome is not None and rec['t'] is not None:
+                        env.run.log(self.get_id(), 'Told', rec['t'], outcome, kind)
+
             async def _write_value_queued(self, value):
                 t = self.next_ticket
                 self.next_ticket += 1
                 self.cur_ticket = t
+                task = asyncio.current_task()
+                if task in self.tw:
+                    self.tw[task]['t'] = t
+                    if task in env.run.api_tasks:
+                        self.api_ticket[task] = t
                 env.run.submitted.setdefault(self.get_id(), []).append(t)
                 try:
                     r = await super()._write_value_queued(value)
@@ -273,6 +321,7 @@ class Run:
         self.submitted = {}
         self.tick_task = None
         self.tasks = []
+        self.api_tasks = {}       # task -> port id, for ApiWrite commands
         self.seq = 0
 
     def log(self, pid, name, *args):
@@ -283,17 +332,28 @@ class Run:
     def anomaly(self, pid, what):
         self.anomalies.append({'port': pid, 'what': what, 'at': self.seq})
 
-    def spawn(self, coro, label):
+    def spawn(self, coro, label, api_port=None):
         async def runner():
+            ok = True
             try:
                 await coro
                 self.api.append([label, 'ok'])
             except asyncio.CancelledError:
+                self.api.append([label, 'cancelled'])
                 raise
             except Exception as e:  # noqa: BLE001
                 code = getattr(e, 'code', None)
+                status = getattr(e, 'status', None)
                 self.api.append([label, type(e).__name__ + (':%s' % code if code else '')])
+                ok = type(e).__name__ == 'APIAccepted' or status in (202, 204)
+            if api_port is not None:
+                port = self.ports.get(api_port)
+                t = port.api_ticket.pop(asyncio.current_task(), None) if port is not None else None
+                if t is not None:       # the request got as far as submitting a value
+                    self.log(api_port, 'ApiTold', t, ok)
         t = asyncio.get_running_loop().create_task(runner())
+        if api_port is not None:
+            self.api_tasks[t] = api_port
         self.tasks.append(t)
         return t
 
@@ -417,7 +477,7 @@ class Run:
         elif name == 'ApiWrite':
             pid, v = cmd[1], cmd[2]
             h = env.handler('PATCH', '/api/ports/%s/value' % pid, json.dumps(v).encode())
-            self.spawn(env.api_ports.patch_port_value(h, pid, v), 'ApiWrite %s %s' % (pid, v))
+            self.spawn(env.api_ports.patch_port_value(h, pid, v), 'ApiWrite %s %s' % (pid, v), api_port=pid)
         elif name == 'SetSequence':
             pid, values, delays, repeat = cmd[1:5]
             params = {'values': values, 'delays': delays, 'repeat': repeat}
@@ -431,6 +491,14 @@ class Run:
             p = self.ports.get(cmd[1])
             if p is not None:
                 self.spawn(p.reset(), 'Reset %s' % cmd[1])
+        elif name == 'CancelWaitingReader':
+            # abort a reset()/restore request that is waiting behind a read in flight (client gone / timeout)
+            p = self.ports.get(cmd[1])
+            if p is not None:
+                for task, src in list(p.waiting.items()):
+                    if src == 'load' and not task.done():
+                        task.cancel()
+                        break
         elif name == 'Load':
             pid, v = cmd[1], cmd[2]
             if pid in self.ports or pid not in self.classes:
